@@ -23,6 +23,7 @@ fn replay(run: &Run, v: &Value) -> i32 {
                             alpha.push(Rec {
                                 ty: o["type"].as_u64().unwrap() as u8,
                                 data: unhex(o["data"].as_str().unwrap()),
+                                ver: o["version"].as_u64().unwrap_or(0x0303) as u16,
                             });
                             ops.push(if name == "parse_record" {
                                 Op::Parse(alpha.len() - 1)
@@ -32,10 +33,14 @@ fn replay(run: &Run, v: &Value) -> i32 {
                         }
                     }
                 }
-                HDR_VERSION.with(|v| v.set(case["version"].as_u64().unwrap_or(0x0303) as u16));
                 if let Some((n, m)) = run_history(&alpha, &ops) {
                     msgs.push(format!("operation {} ({}): {}", n, op_str(&ops[n], &alpha), m));
                 }
+            }
+            Some("oversize") => {
+                let mut s = Sink::new();
+                s4(&mut s);
+                msgs.extend(s.viol.iter().map(|v| v.what.clone()));
             }
             Some("cap") => {
                 let mut s = Sink::new();
@@ -139,10 +144,11 @@ fn main() {
     let (h2, st2) = s2(&mut sink, 65535, thorough);
     per.push(json!({"scenario":"S2 size cap","histories":h1+h2,"steps":st1+st2}));
 
-    // S3: the record-layer version is dead in this module: every one of the 65536 values, on the first
-    // fragment / continuation / last fragment alike, over 2- and 3-way splits with an interleaved foreign record,
-    // a refused nocopy call and a trailing complete record
-    let mut s3_hist = 0usize;
+    // S3: the record-layer version is dead in this module: every one of the 65536 values, on all records of a
+    // history at once and on each single record of it (first fragment / continuation / last fragment / the
+    // interleaved foreign record) with the others at 0x0303, over 2- and 3-way splits with an interleaved
+    // foreign record, a refused nocopy call and a trailing complete record
+    let s3_hist;
     {
         let mut hists: Vec<(Vec<Rec>, Vec<Op>)> = Vec::new();
         for (ty, p) in s1_catalogue(thorough).into_iter().filter(|(_, p)| p.len() >= 3) {
@@ -152,41 +158,52 @@ fn main() {
                 let mut ops = Vec::new();
                 let mut at = 0;
                 for c in cuts.iter().chain(std::iter::once(&n)) {
-                    alpha.push(Rec { ty, data: p[at..*c].to_vec() });
+                    alpha.push(rec(ty, &p[at..*c]));
                     ops.push(Op::Parse(alpha.len() - 1));
                     if at == 0 {
-                        alpha.push(Rec { ty: 0x15, data: vec![1, 0] });
+                        alpha.push(rec(0x15, &[1, 0]));
                         ops.push(Op::Parse(alpha.len() - 1));
                         ops.push(Op::NoCopy(alpha.len() - 1));
                     }
                     at = *c;
                 }
-                alpha.push(Rec { ty: 0x16, data: vec![0x0e, 0, 0, 0] });
+                alpha.push(rec(0x16, &[0x0e, 0, 0, 0]));
                 ops.push(Op::Parse(alpha.len() - 1));
                 ops.push(Op::NoCopy(alpha.len() - 1));
                 hists.push((alpha, ops));
             }
         }
-        s3_hist = hists.len() * 65536;
+        let variants: usize = hists.iter().map(|(a, _)| a.len() + 1).sum();
+        s3_hist = variants * 65536;
         let s3 = par_run(run.threads, 256, |hi, sink| {
             for lo in 0..256u32 {
                 let ver = ((hi as u32) << 8 | lo) as u16;
-                HDR_VERSION.with(|v| v.set(ver));
-                for (alpha, ops) in &hists {
-                    sink.evals += ops.len() as u64;
-                    if let Some((n, m)) = run_history(alpha, ops) {
-                        let mut j = json!({"kind":"history","scenario":"S3 record version","ops":hist_json(&ops[..=n], alpha)});
-                        j["version"] = json!(ver);
-                        sink.violation(format!("S3 version {:#06x} op {}", ver, n), format!("[S3 record version {:#06x}] operation {} ({}): {}", ver, n, op_str(&ops[n], alpha), m), j);
+                for (alpha0, ops) in &hists {
+                    // which == alpha0.len(): every record carries the version
+                    for which in 0..=alpha0.len() {
+                        let mut alpha = alpha0.clone();
+                        for (k, r) in alpha.iter_mut().enumerate() {
+                            if which == alpha0.len() || which == k {
+                                r.ver = ver;
+                            }
+                        }
+                        sink.evals += ops.len() as u64;
+                        if let Some((n, m)) = run_history(&alpha, ops) {
+                            let j = json!({"kind":"history","scenario":"S3 record version","ops":hist_json(&ops[..=n], &alpha)});
+                            sink.violation(format!("S3 version {:#06x} on {} op {}", ver, which, n), format!("[S3 record version {:#06x} on {}] operation {} ({}): {}", ver, if which == alpha0.len() { "all records".to_string() } else { format!("record {}", which) }, n, op_str(&ops[n], &alpha), m), j);
+                        }
                     }
                 }
             }
-            HDR_VERSION.with(|v| v.set(0x0303));
         });
         transitions += s3.evals as usize;
         sink.merge(s3);
         per.push(json!({"scenario":"S3 record-layer version sweep","versions":65536,"histories":s3_hist}));
     }
+    // S4: hand-built records longer than any record on the wire
+    let (h4, st4) = s4(&mut sink);
+    transitions += st4;
+    per.push(json!({"scenario":"S4 oversize first fragments","histories":h4,"steps":st4}));
 
     if sink.viol.is_empty() && (states < 500 || singles < 3) {
         machinery_failure(run.prop, &format!("vacuous exploration: {} states, {} single-message payloads", states, singles));
@@ -203,13 +220,13 @@ fn main() {
     }
     cov.insert("exhaustive".into(), json!(all_complete));
     cov.insert("rule".into(), json!(
-        "states are canonical (buffer bytes, current type, reference accumulator, reference type, scenario cursor); every transition executes the real parse_record / parse_record_nocopy / reset on a parser rebuilt by replaying the witness history, and is compared with the reference accumulate-then-parse step (result value incl. slice provenance, defrag_in_progress, buffer, state-unchanged-on-refusal, size bound). S0 is depth-bounded (bound reported); S1 runs to fixpoint; S2 is a set of deterministic 10 MiB histories; S3 replays fixed split histories under every one of the 65536 record-layer versions"));
+        "states are canonical (buffer bytes, current type, reference accumulator, reference type, scenario cursor); every transition executes the real parse_record / parse_record_nocopy / reset on a parser rebuilt by replaying the witness history, and is compared with the reference accumulate-then-parse step (result value incl. slice provenance, defrag_in_progress, buffer, state-unchanged-on-refusal, size bound). S0 is depth-bounded (bound reported); S1 runs to fixpoint; S2 is a set of deterministic 10 MiB histories; S3 replays fixed split histories under every one of the 65536 record-layer versions (on all records and on each single record); S4 feeds hand-built first fragments of about 10 MiB"));
     let code = run.finish(
         &sink,
         cov,
         vec![
             "the one-shot parser parse_tls_record_with_header is the oracle for message values (C07 defines the defragmenter relative to it); its own correctness is C03/C04".into(),
-            "records carry hdr.len == data.len() as parse_tls_raw_record produces them; the record version is 0x0303 in S0-S2 and swept over all 65536 values in S3".into(),
+            "records carry hdr.len == data.len() as parse_tls_raw_record produces them; the record version is 0x0303 in S0-S2 and swept over all 65536 values in S3 (uniformly and one record at a time; two different non-default versions in one history are not combined)".into(),
             "S0 free exploration is bounded in depth; payloads of S1 are at most 45 bytes".into(),
         ],
     );
